@@ -21,8 +21,8 @@ META = {
     "harness_bins": ["nkeval"],
     "extract": "C08.v",
     "technique": "Coq proof on a mechanism-shaped model of pending contracts (arrays = (elements, pending_contracts), fields with pending contracts, primitives building closures exactly where operation.rs does): per-primitive pending_tracked lemmas + pipeline composition; a step-indexed logical relation between two runs that differ at one marked component and in how/with which labels the obligations are stored gives, for every pipeline of the 54 supported observers; a pending list guards like the conjunction of its contracts and only the set of (flat) contracts of a stack is observable and every fuel, laziness (bottom_insensitive), blames-iff-reached and annotated-run = unannotated-run when not reached; refutation lemmas for two deliberately broken primitives and for the blame label after ArrayConcat. The model is tied to nickel by differential runs of generated `observe (v | T)` programs (extracted model vs nkeval, annotated and unannotated) with an independent reach-table oracle on the implementation",
-    "level_text": "Theorems (coq/Props/C08.v, 40 statements, closed under the global context) quantify over every container literal, position, annotation of the stated families, every pipeline (any length and nesting) of the supported observers, every fuel: (T0) each primitive delivers every component under its obligations and this composes along pipelines; (T0) a violating component is blamed iff the observation marker put in its place in the *unannotated* run comes out, otherwise the annotated run equals the unannotated one; (T0) an unreached component can be replaced by anything, e.g. a failing one, without changing the outcome; (T1) $func wraps every call; the closed index-arithmetic reach table for single observers agrees with the marker semantics. Outcomes of whole pipelines are compared up to the polarity of a blame; at the primitive level the labels are exact (C08_pending_tracked_concat: every element of a concatenation keeps the pending list of its own operand; the pre-95e63eb ArrayConcat is refuted: C08_concat_prefix_label_refuted - that defect was found by this check and is fixed). The model is hand-written from operation.rs / record.rs / merge.rs / internals.ncl / std.ncl; the tie is the correspondence run (same generated programs on the extracted model and on nickel built from /repo) plus the direct oracle (Python reach table; annotated vs unannotated run).",
-    "level_note": "Trusted: Coq kernel; extraction (ExtrOcamlBasic, ExtrOcamlNativeString); the hand-written model's reading of the Rust/Nickel sources; the generator, Nickel printer and Python reach table. Partial: record merge (`&`) is modelled and generated but outside the theorems (a merged field is `(x & y) | contracts`, the merge inspects x before the check); the blames-iff-reached theorems need the annotation to check every component against Number with the listed names = the record's fields (wf_case), a record type / open record contract that reorders the fields changes the order in which `==` visits them (covered by the correspondence only); function containers have their own theorems (func_wraps_call, func_domain_blames_iff_forced). Not modelled: thunk sharing/memoisation, environments, labels other than polarity, contract deduplication (push_dedup modelled as push), optional/undefined fields, the sealing contracts attached by the stdlib's polymorphic static types (C11), sort/generate/partition, array merge, non-integer numbers.",
+    "level_text": "Theorems (coq/Props/C08.v, 43 statements, closed under the global context) quantify over every container literal, position, annotation of the stated families, every pipeline (any length and nesting) of the supported observers, every fuel: (T0) each primitive delivers every component under its obligations and this composes along pipelines; (T0) a violating component is blamed iff the observation marker put in its place in the *unannotated* run comes out, otherwise the annotated run equals the unannotated one; (T0) an unreached component can be replaced by anything, e.g. a failing one, without changing the outcome; (T1) $func wraps every call; the closed index-arithmetic reach table for single observers agrees with the marker semantics. Outcomes of whole pipelines are compared up to the polarity of a blame; at the primitive level the labels are exact (C08_pending_tracked_concat: every element of a concatenation keeps the pending list of its own operand; the pre-95e63eb ArrayConcat is refuted: C08_concat_prefix_label_refuted - that defect was found by this check and is fixed). The model is hand-written from operation.rs / record.rs / merge.rs / internals.ncl / std.ncl; the tie is the correspondence run (same generated programs on the extracted model and on nickel built from /repo) plus the direct oracle (Python reach table; annotated vs unannotated run).",
+    "level_note": "Trusted: Coq kernel; extraction (ExtrOcamlBasic, ExtrOcamlNativeString); the hand-written model's reading of the Rust/Nickel sources; the generator, Nickel printer and Python reach table. Partial: record merge (`&`) is modelled and generated but outside the theorems (a merged field is `(x & y) | contracts`, the merge inspects x before the check); the blames-iff-reached theorems need the annotation to check every component against Number with the listed names = the record's fields (wf_case), a record type / open record contract that reorders the fields changes the order in which `==` visits them (covered by the correspondence only); function containers have their own theorems (func_wraps_call, func_domain_blames_iff_forced). Not modelled: thunk sharing/memoisation, environments other than the recursive environment of a record (modelled: a field definition sees its siblings with their pending contracts, re-bound after every lazily applied contract or merge; recursive records are outside the logical-relation theorems and have their own: C08_sibling_ref_guarded, C08_dependent_blames), labels other than polarity, contract deduplication (push_dedup modelled as push), optional/undefined fields, the sealing contracts attached by the stdlib's polymorphic static types (C11), sort/generate/partition, array merge, non-integer numbers.",
 }
 
 # --------------------------------------------------------------------------------------------------
@@ -236,7 +236,18 @@ def nk_container(k):
         return nk_fun(k[1])
     if k[0] == "ktree":
         return nk_tree(k[1])
+    if k[0] == "krecr":
+        return "{" + ", ".join("%s = %s" % (f[0][1], nk_fdef(f[1])) for f in k[1:]) + "}"
     raise ValueError(k)
+
+
+def nk_fdef(d):
+    if d[0] == "datom":
+        return nk_atom(d[1])
+    if d[0] == "dcomp":      # a computed value: not a literal constant for the evaluator
+        a = d[1]
+        return nk_atom(a) if a == FAIL else ("(\"\" ++ %s)" % nk_atom(a) if a[0] == "s" else "(0 + %s)" % nk_atom(a))
+    return "(%s)" % nk_body(d[1], d[2][1])      # a function of a sibling, through the recursive reference
 
 
 def nk_tree(t):
@@ -618,6 +629,15 @@ def py_container(k, pos):
         return lambda arg: py_obs(k[1], arg)
     if k[0] == "ktree":
         return py_tree(k[1], pos, ()).get()
+    if k[0] == "krecr":
+        r = {}
+        for i, f in enumerate(k[1:]):
+            d = f[1]
+            if d[0] == "ddep":
+                r[f[0][1]] = Th(lambda d=d: py_obs(d[1], Th(lambda: r[d[2][1]].get())))
+            else:
+                r[f[0][1]] = py_atom(d[1], pos == (i,))
+        return r
     raise ValueError(k)
 
 
@@ -986,6 +1006,13 @@ def violates(case):
     """is the special component one that the annotation rejects / that fails?"""
     if case.get("kind") == "stack":
         return case["viol"]
+    if case.get("kind") == "recrec":
+        if case["special"] is None:
+            return False
+        if case["special"] == FAIL:
+            return True
+        T = case["T"]
+        return case["leaf"] in T[1] if T[0] in ("recc", "rect") else True
     if case["special"] is None:
         return False
     if case["special"] == FAIL:
@@ -995,6 +1022,71 @@ def violates(case):
         name = case["k"][1 + case["pos"][0]][0][1]
         return name in T[1]
     return True
+
+
+# --------------------------------------------------------------------------------------------------
+# recursive records: a field observed only through a sibling's recursive reference
+
+def gen_recrec_case(rng):
+    elem = rng.weighted([(NUM, 40), ("str", 30), (("gt", 0), 30)])
+    good = {NUM: lambda: n(rng.range(1, 5)), "str": lambda: s("t"), ("gt", 0): lambda: n(rng.range(1, 5))}[elem]
+    bad = {NUM: BAD, "str": n(rng.range(0, 3)), ("gt", 0): n(0)}[elem]         # the last two are literal constants
+    names = rng.shuffle(NAMES)[:rng.range(2, 3)]
+    leaf = names[0]
+    special = rng.weighted([("bad", 65), (FAIL, 15), (None, 20)])
+    special = bad if special == "bad" else special
+    leafdef = (rng.choice(["datom", "datom", "dcomp"]), special if special is not None else good())
+    tk = rng.below(6)
+    leaf_only = tk in (3, 4)          # only the leaf is under a contract: the dependents are free
+    if leaf_only:
+        deps_obs = [("addk", 1), "id", ("const", 0), ("eqk", 2), ("gtk", 0), ("addk", 1), "id"]
+    elif elem == "str":
+        deps_obs = ["id", ("consts", s("t"))]           # the dependents are checked too: they must be strings
+    else:
+        deps_obs = [("addk", 1), "id", ("const", 5), ("addk", 1)]
+    ds = {leaf: leafdef}
+    ds[names[1]] = ("ddep", rng.choice(deps_obs), s(leaf))
+    if len(names) == 3:
+        ds[names[2]] = rng.choice([("ddep", rng.choice(deps_obs), s(names[1])), ("ddep", rng.choice(deps_obs), s(leaf)),
+                                   ("datom", good()), ("dcomp", good())])
+    order = rng.shuffle(names)
+    k = ("krecr",) + tuple((s(nm), ds[nm]) for nm in order)
+    if tk == 0:
+        T = ("dictc", elem)
+    elif tk == 1:
+        T = ("dictt", elem)
+    elif tk == 2:
+        T = ("rect", rng.shuffle(names), elem)
+    elif leaf_only:
+        T = ("recc", [leaf], elem, "open")
+    else:
+        T = ("recc", rng.shuffle(names), elem, "closed")
+    entry = "dom" if rng.chance(1, 5) else "ann"
+    pos = (order.index(leaf),) if special is not None else None
+    ty, shape = "rec", {"names": list(order)}
+    obs = []
+    if rng.chance(3, 5):
+        # look at a dependent only
+        o0 = (rng.choice(["access", "get", "patfield"]), s(rng.choice(names[1:])))
+        obs.append(o0); ty, shape = "num", {}
+    elif rng.chance(1, 3):
+        l = ("lrec", [(s("z"), n(1))], "none")
+        obs.append((rng.choice(["merger", "mergel"]), l)); shape = {"names": list(order) + ["z"]}
+    for _ in range(rng.weighted([(0, 30), (1, 40), (2, 30)]) if obs else rng.range(1, 3)):
+        o, ty, shape = step_from(rng, ty, shape)
+        obs.append(o)
+    o = obs[0]
+    for nx in obs[1:]:
+        o = ("comp", o, nx)
+    if entry == "dom":
+        o = strip_ctr(o)
+    return {"kind": "recrec", "k": k, "T": T, "o": o, "pos": pos, "special": special, "entry": entry, "alias": entry == "dom",
+            "elem": elem, "leaf": leaf}
+
+
+def cut_recursive_refs(k):
+    """the same record where the dependents no longer read their sibling (reach by direct paths only)"""
+    return ("krecr",) + tuple((f[0], ("datom", n(0)) if f[1][0] == "ddep" else f[1]) for f in k[1:])
 
 
 # --------------------------------------------------------------------------------------------------
@@ -1314,6 +1406,8 @@ def expected_error(case):
     if case["k"][0] == "kfun" and case["pos"] == ("arg",):
         return "ERR Blame-"
     if case.get("entry", "ann") == "dom":
+        if isinstance(case["T"], tuple) and case["T"][0] == "recc":
+            return "ERR Blame+"      # a field contract of a record contract keeps the label of its own annotation
         return "ERR Blame-"          # the caller supplied the container
     return "ERR Blame+"
 
@@ -1351,6 +1445,8 @@ def run_cases(ck, cases, exe_model, impl_model_exe=None):
             ck.hist("stack_family", c["fam"])
             ck.hist("stack_presentation", c["style"] + "/" + c["state"])
             ck.hist("stack_depth", len(c["bases"]))
+        if c.get("kind") == "recrec":
+            ck.hist("recrec_leaf", c["k"][1 + c["pos"][0]][1][0] if c["pos"] else "none")
         ck.case(key=key, nontrivial=bool(viol))
         ck.hist("container", c["k"][0])
         ck.hist("entry", c.get("entry", "ann") + ("+alias" if c.get("alias") else ""))
@@ -1392,6 +1488,13 @@ def run_cases(ck, cases, exe_model, impl_model_exe=None):
             key = "oracle:" + "+".join(sorted(set(flat_obs(c["o"])))) + ":" + c["k"][0]
             if c.get("kind") == "stack":
                 key = "stack:%s:%s/%s:" % (c["fam"], c["style"], c["state"]) + "+".join(sorted(set(flat_obs(c["o"]))))
+            if c.get("kind") == "recrec":
+                key = "recrec:%s:" % c["T"][0] + "+".join(sorted(set(flat_obs(c["o"]))))
+                if c["T"][0] in ("dictt", "rect") and viol and pr is True and c["special"] != FAIL and a == m:
+                    # {_ : T} and record types go through %record/map%: the contracts are mapped onto the
+                    # values of the record as it was evaluated, so a sibling's recursive reference still sees
+                    # the unchecked field (the model mirrors this)
+                    key = "type-contract-recursive-reference-unguarded"
             if (c.get("entry") == "dom" and viol and pr is True and c["special"] != FAIL and a == "ERR Blame+"
                     and any(x in ("concatl", "concatr") for x in flat_obs(c["o"]))):
                 # the component is blamed, but with the label of the other operand of `@`: this was the
@@ -1456,6 +1559,10 @@ def run(ck):
     rng2 = core.SplitMix64(ck.seed * 1000003 + 808)
     for _ in range(500 if ck.tier == "quick" else 12000):
         cases.append(gen_stack_case(rng2.fork()))
+    # recursive records: a field seen through a sibling's recursive reference
+    rng3 = core.SplitMix64(ck.seed * 1000003 + 80808)
+    for _ in range(400 if ck.tier == "quick" else 10000):
+        cases.append(gen_recrec_case(rng3.fork()))
     mod_out, imp_out, raw_out = run_cases(ck, cases, exe_model)
     for c, m, a in list(zip(cases, mod_out, imp_out))[:6]:
         ck.sample({"nickel": case_program(c), "model": m, "impl": canon_impl(a)})
